@@ -123,9 +123,20 @@ class C11(vlib.Check):
             a = gen_fp(rng, rng.choice(["count", "float"]), rng.choice([8, 1024, 2 ** 32]))
             self.count("scalar")
             oo = rng.choice(["mul", "div", "floordiv"])
-            yield {"t": "scalar", "o": oo, "x": rng.randint(1, 9), "a": a,
-                   # x * fp (reflected) exists for the commutative operator; every operator has an in-place form
-                   "form": rng.choice(["plain", "plain", "inplace"] + (["reflected"] if oo == "mul" else []))}
+            case = {"t": "scalar", "o": oo, "x": rng.randint(1, 9), "a": a,
+                    # x * fp (reflected) exists for the commutative operator; every operator has an in-place form
+                    "form": rng.choice(["plain", "plain", "inplace"] + (["reflected"] if oo == "mul" else []))}
+            if rng.random() < 0.5 and case["form"] != "reflected":
+                # (not the reflected form: `np.int64(3) * fp` is NumPy's operator, which first tries to read the fingerprint as a
+                #  sequence of `bits` items - nothing e3fp's operators are asked)
+                # the factor as a NumPy scalar (an element read out of a count vector, a small-int array, a float32 weight) and a
+                # larger factor: the product is the mathematical one whatever the factor's own dtype could hold
+                case["xtype"] = rng.choice(["uint8", "int16", "uint16", "int32", "int64", "float32", "float64"])
+                case["x"] = rng.choice([3, 7, 9, 100, 255]) if case["xtype"] == "uint8" else rng.choice([3, 9, 255, 400, 1000, 30000])
+                if a["kind"] == "count" and a["cnt"]:
+                    a["cnt"][rng.randrange(len(a["cnt"]))][1] = str(rng.choice([130, 200, 255, 1000, 65535]))
+                self.count("scalar:factor-is-numpy-" + case["xtype"])
+            yield case
         for _ in range(n):
             bits = rng.choice([8, 64, 1024, 2 ** 32])
             k = rng.randint(1, 6)
@@ -203,6 +214,9 @@ class C11(vlib.Check):
         if t == "scalar":
             a = make_fp(case["a"])
             form = case.get("form", "plain")
+            if case.get("xtype"):
+                import numpy as np
+                case = dict(case, x=getattr(np, case["xtype"])(case["x"]))
             if form == "reflected":
                 r = attempt(lambda: case["x"] * a, dump_fp)
             elif form == "inplace":
